@@ -310,8 +310,34 @@ func TestVerif_C10(t *testing.T) {
 				desc["idle_rest_connection"] = true
 			}
 		}
+		// in a third of the scenarios new peers show up right when the agent is told to stop: their first datagrams are
+		// being read / registered while the node shuts down
+		var latePeers []*vPeer
+		if sc%3 == 1 {
+			for li := 0; li < 1+rng.Intn(3); li++ {
+				if lp, err := vNewPeer(vEnv.addr(200+li), a.opts.N4); err == nil {
+					latePeers = append(latePeers, lp)
+				}
+			}
+			lateOff := time.Duration(rng.Intn(400)-100) * time.Microsecond
+			go func() {
+				if lateOff > 0 {
+					time.Sleep(lateOff)
+				}
+				for li, lp := range latePeers {
+					lp.send(lp.assocSetup(uint32(1 + li)))
+				}
+			}()
+			if lateOff < 0 {
+				time.Sleep(-lateOff)
+			}
+			res.event("stops_with_new_peers_arriving", 1)
+		}
 		stopStart := vTick()
 		stopped := a.stop(vStopWatchdog)
+		for _, lp := range latePeers {
+			lp.close()
+		}
 		if httpIdle != nil {
 			httpIdle.Close()
 		}
